@@ -244,6 +244,61 @@ def export_library():
     return '\n'.join(out) + '\n'
 
 
+
+# ---------------------------------------------------------------- the Python primitives: source fingerprints
+PRIM_SHA = {'split': '610995c16fb90de6', 'modf': '3ef3e8925d682280', 'frexp': 'b647c436d7109cb9'}   # canonical ast.dump, sha256/16
+
+
+def _prim_ast(prim):
+    import ast
+    import inspect
+    import textwrap
+    t = ast.parse(textwrap.dedent(inspect.getsource(prim.func))).body[0]
+    t.decorator_list = []
+    if (t.body and isinstance(t.body[0], ast.Expr) and isinstance(getattr(t.body[0], 'value', None), ast.Constant)
+            and isinstance(t.body[0].value.value, str)):
+        t.body = t.body[1:]
+    return t
+
+
+def primitive_fingerprints():
+    """Returns ({name: sha}, (fv_normalize, fv_exact_e)).  frexp is brought to a
+    canonical form first: the two details the Coq model is parametrised by
+    (a leading `x = x.normalize()` in the finite arm; `exact=True` on the
+    rounding of the exponent) are recorded and removed."""
+    import ast
+    import hashlib
+    from fpy2.libraries import core
+    out = {}
+    for n in ('split', 'modf'):
+        out[n] = hashlib.sha256(ast.dump(_prim_ast(getattr(core, n))).encode()).hexdigest()[:16]
+    t = _prim_ast(core.frexp)
+    try:
+        fin = t.body[0].orelse[0].orelse[0].orelse
+    except (AttributeError, IndexError):
+        raise ExportError('core.frexp no longer is an if/elif/elif/else ladder')
+    norm = False
+    if fin and ast.dump(fin[0]) == ast.dump(ast.parse('x = x.normalize()').body[0]):
+        norm = True
+        del fin[0]
+    exact_e = None
+    for st in fin:
+        if (isinstance(st, ast.Assign) and len(st.targets) == 1 and isinstance(st.targets[0], ast.Name) and st.targets[0].id == 'e'
+                and isinstance(st.value, ast.Call) and ast.dump(st.value.func) == ast.dump(ast.parse('ctx.round').body[0].value)):
+            kws = {k.arg: ast.dump(k.value) for k in st.value.keywords}
+            if kws == {}:
+                exact_e = False
+            elif kws == {'exact': ast.dump(ast.Constant(True))}:
+                exact_e = True
+                st.value.keywords = []
+            else:
+                raise ExportError('core.frexp: unexpected keywords on the rounding of the exponent')
+    if exact_e is None:
+        raise ExportError('core.frexp: no `e = ctx.round(...)` in the finite arm')
+    out['frexp'] = hashlib.sha256(ast.dump(t).encode()).hexdigest()[:16]
+    return out, (norm, exact_e)
+
+
 # ---------------------------------------------------------------- formats and operands
 def rm_of(name):
     from fpy2 import RM
@@ -498,27 +553,27 @@ def run(ck):
         hdr = ('From Coq Require Import ZArith List Bool String.\n'
                'From FpyV Require Import Num.RealFloat Lib.Eft.\nFrom Dyn Require Import GenLib.\n'
                'Open Scope string_scope.\n')
+        from concurrent.futures import ThreadPoolExecutor
+
+        def lemma(fname, body, kind):
+            return ck.coqc_dyn(f'{kind}_{fname}', text=hdr + f'Lemma gen_{fname}_is_{body} : lookup "{fname}" gen_lib = Ok {body}.\n'
+                               'Proof. vm_compute. reflexivity. Qed.\n', timeout=300)[0]
+
+        with ThreadPoolExecutor(8) as tp:
+            futs = {(fname, i): tp.submit(lemma, fname, body, 'Body' if i == 0 else f'BodyAlt{i}')
+                    for fname, cands in BODIES.items() for i, (body, _) in enumerate(cands)}
         for fname, cands in BODIES.items():
-            body, key = cands[0]
-            good, _ = ck.coqc_dyn(f'Body_{fname}', text=hdr + f'Lemma gen_{fname}_is_proved_body : lookup "{fname}" gen_lib = Ok {body}.\n'
-                                  'Proof. vm_compute. reflexivity. Qed.\n', timeout=300)
             ck.obligations += 1
             ck.checker_cmds.append(f'coqc -Q coq FpyV -Q . Dyn build/C20/Body_{fname}.v')
-            if good:
+            if futs[(fname, 0)].result():
                 ck.discharged += 1
-                recognised[fname] = (body, None)
+                recognised[fname] = (cands[0][0], None)
                 continue
-            hit = None
-            for body2, key2 in cands[1:]:
-                g2, _ = ck.coqc_dyn(f'BodyAlt_{fname}', text=hdr + f'Lemma gen_{fname}_is_known_body : lookup "{fname}" gen_lib = Ok {body2}.\n'
-                                    'Proof. vm_compute. reflexivity. Qed.\n', timeout=300)
-                if g2:
-                    hit = (body2, key2)
-                    break
+            hit = [c for i, c in enumerate(cands) if i and futs[(fname, i)].result()]
             if hit:
-                recognised[fname] = hit
+                recognised[fname] = hit[0]
             else:
-                ck.broken.append(f'body of {fname} in /repo matches no proved body (lemma gen_{fname}_is_proved_body fails): '
+                ck.broken.append(f'body of {fname} in /repo matches no proved body (lemma gen_{fname}_is_{cands[0][0]} fails): '
                                  f'the C20 theorems no longer apply to it')
         ck.extra['bodies'] = {k: v[0] for k, v in recognised.items()}
         ck.log('bodies recognised as known-defective: ' + (', '.join(f'{k}={v[0]}' for k, v in recognised.items() if v[1]) or 'none'))
@@ -580,7 +635,7 @@ def run(ck):
 
     pair_fns_near = ['fast_2sum', 'classic_2sum', 'classic_2mul']
     pair_fns_any = ['ideal_2sum', 'priest_2sum', 'ideal_2mul', 'fast_2mul']
-    any_modes = ['RNE', 'RNA', 'RTZ', 'RTP'] + (['RTN', 'RAZ', 'RTO', 'RTE'] if thorough else [])
+    any_modes = ['RNE', 'RNA', 'RTP'] + (['RTZ', 'RTN', 'RAZ', 'RTO', 'RTE'] if thorough else [])
     formats = [('mp', 2, None), ('mp', 3, None), ('mps', 2, -2), ('mps', 3, -2), ('mp', 4, None)]
     if thorough:
         formats += [('mps', 4, -2), ('mp', 5, None), ('mps', 5, -2)]
@@ -590,7 +645,7 @@ def run(ck):
         if big:
             bs = vals[rng.randrange(3)::3]
         pairs = [(a, b) for a in vals for b in (bs if big else vals)]
-        for rm in NEAREST if not big else ('RNE',):
+        for rm in NEAREST:
             for f in pair_fns_near:
                 add_jobs((kind, p, emin, rm), f, pairs)
         for rm in any_modes if not big else ('RNE', 'RTZ'):
@@ -603,21 +658,22 @@ def run(ck):
         for rm in any_modes:
             add_jobs((kind, p, emin, rm), 'ldexp', [(a, (n < 0, 0, abs(n))) for a in vals for n in (-7, -3, -1, 0, 1, 2, 5)]
                      + [(vals[1], (False, -1, 1)), (vals[2], (True, -2, 3))])
-    # triples
-    tri_formats = [('mp', 2, None, 1), ('mps', 2, -2, 1), ('mp', 3, None, 0), ('mp', 4, None, 0)]
+    # triples: (kind, p, emin, lowest binade, highest binade, exhaustive?)
+    tri_formats = [('mp', 3, None, -1, 1, 1), ('mps', 3, -2, -2, 2, 0), ('mp', 4, None, -2, 2, 0), ('mp', 2, None, -2, 2, 0)]
     if thorough:
-        tri_formats = [('mp', 2, None, 1), ('mps', 2, -2, 1), ('mp', 3, None, 1), ('mps', 3, -2, 1), ('mp', 4, None, 0), ('mps', 4, -2, 0)]
-    for kind, p, emin, full in tri_formats:
-        vals = fmt_values(kind, p, emin)
+        tri_formats = [('mp', 3, None, -2, 2, 1), ('mps', 3, -2, -2, 2, 1), ('mp', 2, None, -2, 2, 1), ('mps', 2, -2, -2, 2, 1),
+                       ('mp', 4, None, -2, 2, 0), ('mps', 4, -2, -2, 2, 0), ('mp', 5, None, -2, 2, 0)]
+    for kind, p, emin, lo, hi, full in tri_formats:
+        vals = fmt_values(kind, p, emin, lo, hi)
         if full:
             tr = list(itertools.product(vals, vals, vals))
         else:
-            n = 40000 if thorough else 6000
+            n = 40000 if thorough else 4000
             tr = [(rng.choice(vals), rng.choice(vals), rng.choice(vals)) for _ in range(n)]
         for rm in NEAREST:
             add_jobs((kind, p, emin, rm), 'classic_2fma', tr)
-        for rm in (['RNE', 'RTZ'] if not thorough else any_modes):
-            add_jobs((kind, p, emin, rm), 'ideal_fma', tr)
+        for rm in (['RNE', 'RTP'] if not thorough else any_modes):
+            add_jobs((kind, p, emin, rm), 'ideal_fma', tr if thorough or not full else tr[::3])
 
     ck.log(f'{sum(len(j[2]) for j in jobs)} library calls in {len(jobs)} jobs')
     nproc = max(1, min(14, (os.cpu_count() or 2) - 2))
@@ -628,10 +684,11 @@ def run(ck):
 
     terms, meta = [], []
     fails = {}
-    coq_budget = 400000 if thorough else 60000
+    coq_budget = 300000 if thorough else 20000
     total = sum(len(j[2]) for j in jobs)
     stride = max(1, -(-total // coq_budget))
     idx = 0
+    extra = {}
     for (desc, fname, _), res in zip(jobs, results):
         for args, out, verdict in res:
             idx += 1
@@ -648,8 +705,11 @@ def run(ck):
                 ck.violation(f'{fname} returned a non-finite value on finite operands of an unbounded-exponent format',
                              {'ctx': desc, 'args': [str(frac(a)) for a in args], 'got': out})
                 continue
-            # Coq comparison: every failing/na case, and a deterministic stride of the rest
-            if have_lib and (verdict != 'ok' or idx % stride == 0 or desc[1] <= 2):
+            # Coq comparison: a deterministic stride over all cases, plus the first
+            # 150 cases of every (function, verdict class, outcome class)
+            cls = (fname, verdict if verdict in ('ok', 'na') else 'FAIL', out[0])
+            extra[cls] = extra.get(cls, 0) + 1
+            if have_lib and (idx % stride == 0 or extra[cls] <= 150):
                 a = '; '.join(rf_term(*x) for x in args)
                 terms.append(f'(KEft {fc_term(desc)} "{fname}" [{a}], {t})')
                 meta.append((desc, fname, args, out))
@@ -660,8 +720,23 @@ def run(ck):
                           'args_encoded': args, 'got': out, 'total_failing_inputs_of_this_kind': len(lst)}, key=k)
 
     # ---------------- decompositions (Python primitives): all small values incl. specials
-    dterms, dmeta = decomposition_cases(ck, thorough)
-    ck.rule = ('EFTs: all operand pairs (triples for p=2, sampled above) of MPFloat/MPSFloat formats p in 2..%d, 5 binades, '
+    variant = None
+    try:
+        fps, variant = primitive_fingerprints()
+        for n, h in fps.items():
+            if h != PRIM_SHA[n]:
+                ck.broken.append(f'source of core.{n} differs from the source coq/Lib/Decomp.v was transcribed from '
+                                 f'(fingerprint {h}, expected {PRIM_SHA[n]}): the model may be stale')
+    except ExportError as e:
+        ck.broken.append(f'primitive fingerprints: {e}')
+    except Exception as e:  # noqa
+        ck.broken.append(f'primitive fingerprints crashed: {type(e).__name__}: {e}')
+    ck.extra['frexp_variant'] = {'x_normalize': variant[0], 'exponent_exact': variant[1]} if variant else None
+    ck.obligations += 1      # the proved frexp theorem applies only to the repaired variant
+    if variant == (False, True):
+        ck.discharged += 1
+    dterms, dmeta = decomposition_cases(ck, thorough, variant or (True, False))
+    ck.rule = ('EFTs: all operand pairs (all triples of the 3-digit/3-binade format, sampled triples elsewhere) of MPFloat/MPSFloat formats p in 2..%d, 5 binades, '
                'subnormals, RNE/RNA (+directed modes where the function claims them); non-trivial = distinct '
                '(function, context, operands) within the stated preconditions whose error term is non-zero; '
                'decompositions: all values of the small formats plus zeros, infinities, NaN, with and without an attached context'
@@ -671,20 +746,21 @@ def run(ck):
         ck.sample(t)
     if have_lib:
         ck.log(f'{len(terms)} EFT cases + {len(dterms)} decomposition cases to Coq')
-        bad, err = coq_eval_z(ck, HEADER, 'case20 * out', terms + dterms, 'chk')
+        allc = terms + dterms
+        bad, err = coq_eval_z(ck, HEADER, 'case20 * out', allc, 'chk', chunk=min(4000, max(500, -(-len(allc) // 16))))
         if err:
             ck.broken.append('correspondence evaluation failed: ' + err[:500])
         allmeta = meta + dmeta
         for i in bad:
             m = allmeta[i]
             ck.violation('fpy2 and the Coq model of the regenerated library disagree on ' + str(m[1]),
-                         {'case': (terms + dterms)[i], 'ctx': m[0], 'note': 'first component: call; second: what fpy2 returned'},
+                         {'case': allc[i], 'ctx': m[0], 'note': 'first component: call; second: what fpy2 returned'},
                          key=None)
     else:
         ck.broken.append('no regenerated library: model comparison skipped')
 
 
-def decomposition_cases(ck, thorough):
+def decomposition_cases(ck, thorough, variant):
     """core.split / modf / frexp on every small value; direct checks + Coq cases."""
     from fpy2 import Float, MPFloatContext, MPSFloatContext, RM
     from fpy2.libraries import core
@@ -710,6 +786,15 @@ def decomposition_cases(ck, thorough):
         return f'(OPair (OFl {fl_term(o[1])}) (OFl {fl_term(o[2])}))' if o[0] == 'ok' else f'(OErr {o[1]})'
 
     terms, meta = [], []
+    fv = f'(FV {"true" if variant[0] else "false"} {"true" if variant[1] else "false"})'
+
+    def representable(ctx, q):
+        try:
+            ctx.round(q, exact=True)
+            return True
+        except ValueError:
+            return False
+
     descs = [('mp', 2, None, 'RNE'), ('mp', 3, None, 'RNE'), ('mps', 3, -2, 'RNE'), ('mp', 4, None, 'RTZ')]
     if thorough:
         descs += [('mps', 4, -3, 'RNA'), ('mp', 5, None, 'RNE')]
@@ -723,6 +808,9 @@ def decomposition_cases(ck, thorough):
         vals = fmt_values(kind, p, emin, -3, 4)
         ops = [Float(s=s, exp=e, c=c) for (s, e, c) in vals] + specials
         ops += [Float(s=False, exp=-2, c=(1 << (p + 1)) + 1), Float(s=True, exp=1, c=(1 << (p + 2)) + 3)]
+        # exponents that small contexts cannot represent (5, 9, 11, -5, 37)
+        ops += [Float(s=False, exp=5 - p + 1, c=(1 << p) - 1), Float(s=True, exp=9, c=1), Float(s=False, exp=11 - p + 1, c=1 << (p - 1)),
+                Float(s=False, exp=-5, c=1), Float(s=False, exp=37, c=1)]
         xctx = f'(Some ({cz(p)}, {copt(None if kind == "mp" else emin - p)}))'
         for x in ops:
             tx = fl_term(x)
@@ -788,12 +876,21 @@ def decomposition_cases(ck, thorough):
                 key = None
                 if fin and x.c:
                     ck.nontriv(('frexp', desc, repr(val(x)), with_ctx))
+                    ax = abs(val(x))
+                    te = ax.numerator.bit_length() - ax.denominator.bit_length()
+                    if Fraction(2) ** te > ax:
+                        te -= 1
                     if o[0] == 'err':
-                        if not with_ctx and o[2] == 'ValueError':
-                            key = 'frexp_no_ctx'
-                        ck.violation('core.frexp raises ValueError for a finite operand that carries no context (x.normalize())'
-                                     if key else 'core.frexp raised on a finite operand',
-                                     {'ctx': desc, 'x': repr(x), 'operand_has_ctx': with_ctx, 'got': repr(o)}, key=key)
+                        # exactness-checked rounding may refuse a mantissa / exponent the context cannot hold
+                        legit = o[2] == 'ValueError' and not (representable(ctx, val(x) / Fraction(2) ** te) and representable(ctx, te))
+                        if legit:
+                            ck.count('frexp:refused-unrepresentable')
+                        else:
+                            if variant[0] and not with_ctx and o[2] == 'ValueError':
+                                key = 'frexp_no_ctx'
+                            ck.violation('core.frexp raises ValueError for a finite operand that carries no context (x.normalize())'
+                                         if key else 'core.frexp raised on a finite operand whose mantissa and exponent are representable',
+                                         {'ctx': desc, 'x': repr(x), 'operand_has_ctx': with_ctx, 'got': repr(o)}, key=key)
                     else:
                         m, e = o[1], o[2]
                         good_m = not (m.isnan or m.isinf) and 1 <= abs(val(m)) < 2 and m.s == x.s
@@ -802,9 +899,7 @@ def decomposition_cases(ck, thorough):
                             ck.violation('core.frexp: malformed mantissa/exponent', {'ctx': desc, 'x': repr(x), 'got': repr(o)})
                         elif ev.denominator != 1 or val(m) * Fraction(2) ** int(ev) != val(x):
                             # exactly the class: the true exponent is not representable in ctx and was rounded silently
-                            true_e = Fraction(abs(val(x)).numerator.bit_length() - abs(val(x)).denominator.bit_length())
-                            te = true_e if Fraction(2) ** int(true_e) <= abs(val(x)) else true_e - 1
-                            inexact = val(m) * Fraction(2) ** int(te) == val(x) and ev != te
+                            inexact = (not variant[1]) and val(m) * Fraction(2) ** te == val(x) and ev != te
                             key = 'frexp_exponent_rounded' if inexact else None
                             ck.violation('core.frexp rounds the exponent inexactly (no exact=True): m * 2**e != x' if key
                                          else 'core.frexp does not recombine to its operand',
@@ -821,6 +916,6 @@ def decomposition_cases(ck, thorough):
                         ck.violation('core.frexp: wrong answer for a special operand', {'ctx': desc, 'x': repr(x), 'got': repr(o)})
                 else:
                     ck.violation('core.frexp raised on a special operand', {'ctx': desc, 'x': repr(x), 'got': repr(o)})
-                terms.append(f'(KFrexp {fct} {xctx if with_ctx else "None"} {tx2}, {o_term(o)})')
+                terms.append(f'(KFrexp {fv} {fct} {xctx if with_ctx else "None"} {tx2}, {o_term(o)})')
                 meta.append((desc, 'core.frexp', x, o, key))
     return terms, meta
